@@ -535,4 +535,78 @@ theorem C06_none_bool (d : Dialect) (style : Style) :
     valueStr d style (.bool false) = (if d = .postgres then ['f', 'a', 'l', 's', 'e'] else ['0']) := by
   cases d <;> simp [valueStr]
 
+/-! ### constants and parameters denote the same database value (SQLite); `Param.eval` -/
+
+private theorem read_quoted (s : Str) : sqliteRead (stdQuote s) = some (.text s) := by
+  have h := lexQuoted_stdQuote s [] (by simp)
+  simp only [List.append_nil] at h
+  have e : stdQuote s = '\'' :: (replaceChar '\'' ['\'', '\''] s ++ ['\'']) := rfl
+  rw [e] at h ⊢
+  simp [sqliteRead, h]
+
+/-- **A value written as a constant in the query and the same value bound as a parameter denote the same SQLite value** -
+    for `None`, booleans, every integer, every string, all bytes, every date, datetime and time, under every paramstyle:
+    reading the inline literal `SQLiteValue.__str__` renders (after the driver's `%` expansion) gives exactly what
+    `converter.py2sql` hands to the driver for the parameter. -/
+theorem C06_sqlite_const_eq_param (style : Style) (sv : SV) (hb : ∀ b, sv = .bytes b → ∀ x ∈ b, x < 256) :
+    ((sqliteConstText style sv).bind (expandPercent style)).bind sqliteRead = some (sqliteBind sv) := by
+  cases sv with
+  | none =>
+    simp only [sqliteConstText, valueStr, Option.bind_some]
+    rw [expandPercent_noPercent _ _ (by decide)]; decide
+  | bool b =>
+    cases b <;> (simp only [sqliteConstText, valueStr, Option.bind_some]; rw [expandPercent_noPercent _ _ (by decide)]; decide)
+  | int i =>
+    simp only [sqliteConstText, valueStr, Option.bind_some]
+    rw [expandPercent_noPercent _ _ (fun m => (intStr_safe i _ m).2.1 rfl), Option.bind_some]
+    have hl := C06_int_roundtrip (d := .sqlite) (style := style) i [] (by simp)
+    simp only [valueStr, List.append_nil] at hl
+    obtain ⟨c, r, h, h1, h2, h3⟩ := intStr_head i
+    rw [h] at hl ⊢
+    simp [sqliteRead, h1, h2, h3, hl, sqliteBind]
+  | str s =>
+    simp only [sqliteConstText, valueStr, Option.bind_some, C06_literal_expand, read_quoted, sqliteBind]
+  | bytes b =>
+    have hr := C06_bytes_roundtrip .sqlite style b (hb b rfl)
+    simp only [sqliteConstText, Option.bind_some]
+    have hp : '%' ∉ valueStr .sqlite style (.bytes b) := by
+      simp [valueStr, hexlify_no_percent]
+    rw [expandPercent_noPercent _ _ hp, Option.bind_some]
+    simp only [valueStr] at hr ⊢
+    simp [sqliteRead, hr, sqliteBind]
+  | date x =>
+    have h := C06_temporal_expand .sqlite style (.date x) (by intro td; simp)
+    simp only [sqliteConstText, h, temporalKw, if_true, List.nil_append, Option.bind_some, read_quoted, temporalText, sqliteBind]
+  | datetime x t =>
+    have h := C06_temporal_expand .sqlite style (.datetime x t) (by intro td; simp)
+    simp only [sqliteConstText, h, temporalKw, if_true, List.nil_append, Option.bind_some, read_quoted, temporalText, sqliteBind]
+  | time t =>
+    have h := C06_temporal_expand .sqlite style (.time t) (by intro td; simp)
+    simp only [sqliteConstText, h, temporalKw, if_true, List.nil_append, Option.bind_some, read_quoted, temporalText, sqliteBind]
+
+/-- `Param.eval` picks exactly the addressed component: item `i` of a sequence, and component `j` of an entity's raw
+    primary key … -/
+theorem C06_param_eval_item (values : Nat → Option VarVal) (v i : Nat) (es : List Elem) (sv : SV)
+    (hv : values v = some (.seq es)) (hi : es[i]? = some (.scalar sv)) :
+    paramEvalRaw values v (some i) none = some sv := by
+  simp [paramEvalRaw, hv, hi]
+
+theorem C06_param_eval_pk (values : Nat → Option VarVal) (v i j : Nat) (es : List Elem) (pk : List SV) (sv : SV)
+    (hv : values v = some (.seq es)) (hi : es[i]? = some (.entity pk)) (hj : pk[j]? = some sv) :
+    paramEvalRaw values v (some i) (some j) = some sv := by
+  simp [paramEvalRaw, hv, hi, hj]
+
+/-- … and end to end: for every paramstyle, every list of parameter occurrences given by their paramkeys `(var, i, j)`
+    (with repeats) and every variable assignment, the placeholder written at occurrence `pos` is bound to what
+    `Param.eval` computes for the paramkey occurring there, after the SQLite converter. -/
+theorem C06_params_eval (style : Style) (tbl : Nat → Nat × Option Nat × Option Nat) (values : Nat → Option VarVal)
+    (occ : List Nat) (pos : Nat) (h : pos < occ.length) :
+    (placeholders style occ)[pos]?.bind
+        (fun ph => resolve ph pos (adapter style occ (fun k => (paramEvalRaw values (tbl k).1 (tbl k).2.1 (tbl k).2.2).map sqliteBind)))
+      = some ((paramEvalRaw values (tbl occ[pos]).1 (tbl occ[pos]).2.1 (tbl occ[pos]).2.2).map sqliteBind) :=
+  C06_params style occ _ pos h
+
+example : paramEvalRaw (fun _ => some (.seq [.scalar (.int 7), .entity [.str ['a'], .int 3]])) 0 (some 1) (some 1) = some (.int 3) := by
+  simp [paramEvalRaw]
+
 end PonyVerif.Props.C06
